@@ -313,6 +313,11 @@ def _havoc_like(I, v, name, kind=None):
     if isinstance(v, list):
         return Opaque('list', 'havoc_' + name)
     from .sym import SDict
+    if isinstance(v, dict):
+        from .modular import make_symbolic
+        return SDict(name, 'opaque', make_symbolic)
+    if isinstance(v, Opaque):
+        return Opaque(v.pykind, 'havoc_' + name, taint_of(v))
     if isinstance(v, SDict):
         return SDict(name, v.vkind, v.maker)
     if isinstance(v, SOpt):
@@ -328,6 +333,36 @@ def _assigned_names(body):
             if isinstance(n, ast.Name) and isinstance(n.ctx, ast.Store):
                 if n.id not in names:
                     names.append(n.id)
+    return names
+
+
+_MUTATORS = {'append', 'extend', 'insert', 'pop', 'remove', 'clear', 'update', 'add', 'discard',
+             'setdefault', 'sort', 'reverse', 'popitem', 'appendleft', 'popleft'}
+
+
+def _mutated_in_place_names(body):
+    """Local names whose value the loop body may change without assigning the name: x[k] = v,
+    del x[k], x[k] += v, x.append(v), ...  Their content after an arbitrary number of iterations
+    is unknown, exactly like that of an assigned name."""
+    names = []
+
+    def base(n):
+        while isinstance(n, (ast.Subscript, ast.Attribute)) and not isinstance(n, ast.Name):
+            if isinstance(n, ast.Attribute):
+                return None          # field of an object: judged by the heap frame, not here
+            n = n.value
+        return n.id if isinstance(n, ast.Name) else None
+
+    for s in body:
+        for n in ast.walk(s):
+            b = None
+            if isinstance(n, ast.Subscript) and isinstance(n.ctx, (ast.Store, ast.Del)):
+                b = base(n.value)
+            elif isinstance(n, ast.Call) and isinstance(n.func, ast.Attribute) and n.func.attr in _MUTATORS \
+                    and isinstance(n.func.value, ast.Name):
+                b = n.func.value.id
+            if b is not None and b not in names:
+                names.append(b)
     return names
 
 
@@ -451,6 +486,12 @@ def _assume_inv(I, spec, env, extra, havocked=()):
 
 def _havoc_loop_state(I, node, env, spec, tag, extra_skip=()):
     names = [n for n in _assigned_names(node.body) if n in env.locals and n not in extra_skip]
+    for n in _mutated_in_place_names(node.body):
+        # containers held in locals and changed in place (only real containers: a call such as
+        # obj.update(...) on a modelled object is judged by the heap frame)
+        if n in env.locals and n not in names and n not in extra_skip and \
+                isinstance(env.locals[n], (list, dict, set, Opaque)) and n not in spec.havoc:
+            names.append(n)
     spec._havocked = set(names) | set(spec.havoc) | set(spec.modifies)
     for n in names:
         env.locals[n] = _havoc_like(I, env.locals[n], "%s_%s" % (tag, n), spec.havoc.get(n))
